@@ -683,7 +683,8 @@ def ppo_epochs(item, col, head, N, pv, seed, cshape):
         if moved:
             col.outcome("ppo_multi_epoch_updates_where_the_policy_moved")
         for e, c in enumerate(list(calls)):
-            if not np.allclose(c[0].reshape(-1), lp0.reshape(-1), rtol=0, atol=1e-6):
+            # the jitted routine recomputes log pi: allow a few float32 ulp of the value (a later-epoch policy differs by far more)
+            if not np.allclose(c[0].reshape(-1), lp0.reshape(-1), rtol=2e-6, atol=2e-6):
                 col.violation(SIG.format(entry, K_OLD), dict(item=item["name"], epochs=epochs, epoch=e, old_logps_passed=c[0], logp_of_policy_at_entry=lp0))
                 break
             if any(not np.array_equal(x, y) for x, y in zip(c[1:], calls[0][1:])):
@@ -745,6 +746,7 @@ def mrq_ref(policy, q, enc, zs):
 
 def work_dpg(item, col):
     head, N, seed = item["head"], item["N"], item["seed"]
+    ln_rtol = [None]  # set by the LayerNorm (MR.Q) branch
     n_batches = 2 if item["tier"] == "quick" else 4
     if head.startswith("dpg"):
         entry, upd_entry = "deterministic_policy_gradient_loss", "ddpg_update_actor"
@@ -808,15 +810,20 @@ def work_dpg(item, col):
             if not ok:
                 continue
             (val, (dpg0, reg0)), g = r
+            # LayerNorm networks of width 3 on a single observation amplify float32 rounding (eager reference vs jitted routine
+            # differ by up to ~1e-4 relative at some seeds): the comparisons of this branch allow 5e-4; what they are there to
+            # catch (mean instead of min of the critics, a wrong sign, a missing regulariser) is orders of magnitude larger
+            lnclose = lambda a_, b_: bool(np.all(np.abs(f64(a_) - f64(b_)) <= 5e-4 * np.maximum(1.0, np.abs(f64(b_)))))  # noqa: E731
+            ln_rtol[0] = 5e-4
             col.tick(1)
-            if not num.close(dpg0, want):
+            if not lnclose(dpg0, want):
                 col.violation(SIG.format(entry, K_VALUE), dict(base, what="dpg component", got=float(dpg0), want=want))
             for w in [1e-5, 0.5]:
                 ok, r2 = guarded(col, entry, N, base, lambda: f_impl(policy, q, enc, zs, w))
                 if ok:
                     (valw, (dpgw, regw)), _ = r2
                     col.tick(1, (item["name"], ps, bt, "decomposition", w))
-                    if not (num.close(dpgw, want) and num.close(valw, want + w * float(regw)) and float(regw) >= 0):
+                    if not (lnclose(dpgw, want) and lnclose(valw, want + w * float(regw)) and float(regw) >= 0):
                         col.violation(SIG.format(entry, K_VALUE), dict(base, what="loss != dpg + weight*regulariser", weight=w, got=float(valw), dpg=float(dpgw), reg=float(regw), want_dpg=want))
             gref = f_ref(policy, q, enc, zs)
             others = {}
@@ -827,7 +834,7 @@ def work_dpg(item, col):
         col.outcome("dpg_reference_gradient_nonzero", int(nz))
         col.outcome("dpg_cases_where_a_sign_flip_would_change_value", int(abs(want) > 1e-4))
         col.tick(1, key)
-        if np.shape(val) != () or not vclose(val, want, float(np.max(np.abs(np.concatenate((qa, qb)))))):
+        if np.shape(val) != () or not vclose(val, want, float(np.max(np.abs(np.concatenate((qa, qb))))), **({"rtol": ln_rtol[0]} if ln_rtol[0] else {})):
             col.violation(SIG.format(entry, K_VALUE), dict(base, got=f64(val), want=want, q1=qa, q2=qb))
         col.tick(1, key)
         if not gclose(g, gref):
